@@ -163,7 +163,7 @@ pub fn gen_c07(rng: &mut Rng, tier: Tier) -> NetProgram {
         let s = prog.modules.len();
         prog.modules.push(ModSpec { name: format!("tx{p}"), parent: -1, stages: 1, gates: vec![("port".into(), 1)], panic_at: 255, ..Default::default() });
         prog.modules.push(ModSpec { name: format!("rx{p}"), parent: -1, stages: 1, gates: vec![("port".into(), 1)], panic_at: 255, ..Default::default() });
-        let bitrate = *rng.pick(&[0u64, 1, 3, 800, 7_000, 10_000, 1_000_000, 1_234_567, 1_000_000_000, 25_000_000_000]);
+        let bitrate = *rng.pick(&[0u64, 1, 3, 800, 7_000, 10_000, 1_000_000, 1_234_567, 1_000_000_000, 25_000_000_000, 2_000_000_000_000, 10_000_000_000_000]);
         let latency = *rng.pick(&[0u64, 1_000, 1_000_000, SEC]);
         let jitter = if rng.chance(1, 3) { *rng.pick(&[1_000u64, 1_000_000]) } else { 0 };
         let queue = match rng.below(6) {
